@@ -396,9 +396,7 @@ package connect
 //@   ensures err != nil ==> !called("(*sync.Pool).Put", 1) && !called("(*compressionPool).putDecompressor", 1)   // label: a-decompressor-whose-reset-failed-is-dropped-not-recycled   // tags: C08, C06
 //@   ensures err == nil && typeis(reader, "*bytes.Buffer") && decompOK(c.decompressors, view(reader)) ==> rest(res) == decompBy(c.decompressors, view(reader)) && termerr(res) == io.EOF   // label: reset-before-use
 //@   ensures err == nil && typeis(reader, "*bytes.Buffer") && !decompOK(c.decompressors, view(reader)) ==> termerr(res) != io.EOF
-//@   ensures err == nil ==> termerr(res) == io.EOF || !Is(termerr(res), io.EOF)
 //@   ensures typeis(reader, "*bytes.Buffer") && decompOK(c.decompressors, view(reader)) ==> err == nil    // label: valid-input-resets-cleanly
-//@   ensures typeis(reader, "*bytes.Buffer") && |view(reader)| > 0 && err != nil ==> !Is(err, io.EOF)
 //@   ensures res != nil && typeis(res, "*bytes.Buffer") ==> !old(owned(res))
 //@   ensures !(res != nil && typeis(res, "*bytes.Buffer")) ==> owned(res) == old(owned(res))
 //@   ensures res != nil ==> frompool(res) == c.decompressors && pooled(res)
@@ -902,7 +900,7 @@ package connect
 //@ trusted func AnyRequest.Header(r) res
 
 //@ func (*recoverHandlerInterceptor).WrapStreamingHandler$1(ctx, conn) retErr
-//@   anchor "return func(ctx context.Context, conn StreamingHandlerConn) (retErr error)"
+//@   anchor "return func("
 //@   tags C19, C12
 //@   assert@call(field:recoverHandlerInterceptor.handle#1): arg0 == ctx && arg1.Procedure == callres("StreamingHandlerConn.Spec", 1).Procedure && arg1.StreamType == callres("StreamingHandlerConn.Spec", 1).StreamType && arg1.IsClient == callres("StreamingHandlerConn.Spec", 1).IsClient && arg2 == callres("StreamingHandlerConn.RequestHeader", 1)   // label: the-recovery-function-sees-the-call's-spec-and-request-headers   // tags: C12, C19
 //@   requires conn != nil && deref(i) != nil && deref(next) != nil && deref(i).handle != nil
@@ -912,7 +910,7 @@ package connect
 //@   panicensures panicked("(*recoverHandlerInterceptor).WrapStreamingHandler$1.next", 1) && panicvalue == http.ErrAbortHandler && panicval("(*recoverHandlerInterceptor).WrapStreamingHandler$1.next", 1) == http.ErrAbortHandler && handleCalls() == old(handleCalls())   // label: abort-sentinel-is-re-raised-untouched
 
 //@ func (*recoverHandlerInterceptor).WrapUnary$1(ctx, req) (res, retErr)
-//@   anchor "return func(ctx context.Context, req AnyRequest)"
+//@   anchor "return func("
 //@   tags C19, C12
 //@   assert@call(field:recoverHandlerInterceptor.handle#1): arg0 == ctx && arg1.Procedure == callres("AnyRequest.Spec", 1).Procedure && arg1.StreamType == callres("AnyRequest.Spec", 1).StreamType && arg1.IsClient == callres("AnyRequest.Spec", 1).IsClient && arg2 == callres("AnyRequest.Header", 1)   // label: the-recovery-function-sees-the-call's-spec-and-request-headers   // tags: C12, C19
 //@   requires req != nil && deref(i) != nil && deref(next) != nil && deref(i).handle != nil
@@ -955,6 +953,13 @@ package connect
 // wrapIfContextDone: an error that the transport did not mark as a context error
 // is classified by the call's own context (C15: whatever fails once the context
 // is done fails as canceled / deadline_exceeded).
+//@ func hideEOF(err) res
+//@   tags C01, C03, C04, C06, C07, C08, C09, C15
+//@   assigns nothing
+//@   ensures err == nil ==> res == nil
+//@   ensures err != nil ==> res != nil
+//@   ensures !Is(err, io.EOF) ==> res == err                         // label: nothing-to-hide
+//@   ensures err != nil && Is(err, io.EOF) ==> !Is(res, io.EOF) && !coded(res) && !Is(res, context.Canceled) && !Is(res, context.DeadlineExceeded) && !Is(res, errSpecialEnvelope)   // label: a-codec's-or-decompressor's-error-never-reads-as-the-end-of-the-stream
 //@ func wrapIfContextDone(ctx, err) res
 //@   tags C15
 //@   requires ctx != nil
@@ -1292,7 +1297,7 @@ package connect
 //@   ensures err != nil && callres("grpcStatusFromError", 1, 1) == nil && callres("Codec.Marshal", 1, 1) == nil ==> mapval(trailer, "Grpc-Status")[0] == dec(callres("grpcStatusFromError", 1, 0).Code) && isEnc(mapval(trailer, "Grpc-Message")[0], callres("grpcStatusFromError", 1, 0).Message)   // label: status-and-percent-encoded-message
 //@   ensures err != nil && callres("grpcStatusFromError", 1, 1) == nil && callres("Codec.Marshal", 1, 1) == nil ==> mapdom(trailer, "Grpc-Status-Details-Bin") && mapval(trailer, "Grpc-Status-Details-Bin") == [b64raw(menc(protobuf, mval(callres("grpcStatusFromError", 1, 0))))]   // label: binary-status-always-sent
 //@   ensures err != nil && !(callres("grpcStatusFromError", 1, 1) == nil && callres("Codec.Marshal", 1, 1) == nil) ==> mapval(trailer, "Grpc-Status")[0] == dec(13)   // label: unencodable-error-is-internal
-//@   ensures err != nil && coded(err) && callres("grpcStatusFromError", 1, 1) == nil && callres("Codec.Marshal", 1, 1) == nil ==> (forall k seq :: {mapval(trailer, k)} mapdom(asErr(err).meta, k) && !reservedGRPC(k) && !framing(k) ==> mapdom(trailer, k) && mapval(trailer, k) == old(rawvals(trailer, k)) ++ mapval(asErr(err).meta, k))   // label: error-metadata-appended-under-its-keys   // tags: C11
+//@   ensures err != nil && coded(err) ==> (forall k seq :: {mapval(trailer, k)} mapdom(asErr(err).meta, k) && !reservedGRPC(k) && !framing(k) ==> mapdom(trailer, k) && mapval(trailer, k) == old(rawvals(trailer, k)) ++ mapval(asErr(err).meta, k))   // label: error-metadata-appended-under-its-keys-whether-or-not-the-error-itself-can-be-serialized   // tags: C11, C02
 //@   ensures forall k seq :: {mapval(trailer, k)} !reservedGRPC(k) && !(err != nil && coded(err) && mapdom(asErr(err).meta, k) && !framing(k)) ==> mapdom(trailer, k) == old(mapdom(trailer, k)) && mapval(trailer, k) == old(mapval(trailer, k))   // label: other-trailers-untouched-the-framing-headers-among-them-whatever-the-error's-metadata-holds   // tags: C11, C05
 
 // protocol_grpc.go: the handler conn. Whether or not the first Send succeeds,
@@ -1511,6 +1516,7 @@ package connect
 //@   ensures streamType == 0 ==> hdom(header, "Content-Encoding") == old(hdom(header, "Content-Encoding")) && hraw(header, "Content-Encoding") == old(hraw(header, "Content-Encoding"))   // label: unary-request-encoding-is-left-to-the-marshaler   // tags: C01, C05, C08
 //@   ensures streamType != 0 && c.protocolClientParams.CompressionName != "" && c.protocolClientParams.CompressionName != "identity" ==> hdom(header, "Connect-Content-Encoding") && hraw(header, "Connect-Content-Encoding") == [c.protocolClientParams.CompressionName]   // label: streaming-request-names-its-compression   // tags: C05, C08
 //@   ensures streamType != 0 && (c.protocolClientParams.CompressionName == "" || c.protocolClientParams.CompressionName == "identity") ==> !hdom(header, "Connect-Content-Encoding")   // label: no-compression-no-header
+//@   ensures streamType != 0 ==> !hdom(header, "Content-Encoding")   // label: an-envelope-stream-is-never-labelled-as-compressed-as-a-whole-whatever-the-header-map-held   // tags: C05, C08
 //@   ensures hdom(header, "Content-Type") && hraw(header, "Content-Type") == [callres("connectContentTypeFromCodecName", 1)]   // label: content-type-names-protocol-and-codec   // tags: C05
 //@   assert@call(connectContentTypeFromCodecName#1): arg0 == streamType && arg1 == callres("Codec.Name", 1)   // label: content-type-built-from-the-stream-type-and-the-codec's-name   // tags: C05, C12
 
@@ -1527,7 +1533,7 @@ package connect
 //@   assigns d.onRequestSend
 //@   ensures d.onRequestSend == onRequestSend
 //@ func (*duplexHTTPCall).ensureRequestMade$1()
-//@   anchor "d.sendRequestOnce.Do(func() {"
+//@   anchor "sendRequestOnce.Do(func("
 //@   tags C10
 //@   requires deref(d) != nil && deref(d).request != nil && deref(d).request.Header != nil
 //@   assigns mapof(deref(d).request.Header), mapvals(deref(d).request.Header)
@@ -1539,6 +1545,7 @@ package connect
 //@   requires d != nil
 //@   assigns d.validateResponse
 //@ func (*connectClient).NewConn(c, ctx, spec, header) res
+//@   implements protocolClient.NewConn
 //@   tags C10, C09, C08, C01, C06
 //@   requires c != nil && ctx != nil && header != nil && c.protocolClientParams.CompressionPools != nil && c.protocolClientParams.BufferPool != nil
 //@   assert@call(wrapClientConnWithCodedErrors#1): typeis(arg0, "*connectUnaryClientConn") ==> (let u := cast(arg0, "*connectUnaryClientConn") in u.unmarshaler.readMaxBytes == c.protocolClientParams.ReadMaxBytes && u.unmarshaler.codec == c.protocolClientParams.Codec && u.unmarshaler.bufferPool == c.protocolClientParams.BufferPool && u.unmarshaler.reader == u.duplexCall && u.marshaler.writer == u.duplexCall && u.marshaler.codec == c.protocolClientParams.Codec && u.marshaler.compressMinBytes == c.protocolClientParams.CompressMinBytes && u.marshaler.compressionName == c.protocolClientParams.CompressionName && u.marshaler.compressionPool == callres("readOnlyCompressionPools.Get", 1) && u.compressionPools == c.protocolClientParams.CompressionPools && u.bufferPool == c.protocolClientParams.BufferPool && u.marshaler.bufferPool == u.bufferPool)   // label: unary-conn-carries-the-client's-codec-limit-threshold-and-compression   // tags: C09, C08, C01, C06
@@ -1551,7 +1558,7 @@ package connect
 //@   assert@call((*duplexHTTPCall).SetOnRequestSend#1): arg0 == callres("newDuplexHTTPCall", 1)   // label: the-send-hook-is-this-call's
 //@   ensures called("(*duplexHTTPCall).SetOnRequestSend", 1)   // label: the-timeout-is-computed-again-when-the-request-is-sent   // tags: C10
 //@ func (*connectClient).NewConn$1(header)
-//@   anchor "duplexCall.SetOnRequestSend(func(header http.Header) {"
+//@   anchor "SetOnRequestSend(func("
 //@   tags C10
 //@   requires header != nil
 //@   requires deref(ctx) != nil
@@ -1568,6 +1575,7 @@ package connect
 //@   ensures forall k seq :: {mapdom(header, k)} {mapval(header, k)} k != "Connect-Timeout-Ms" ==> mapdom(header, k) == old(mapdom(header, k)) && mapval(header, k) == old(mapval(header, k))   // label: no-other-header-is-touched
 
 //@ func (*grpcClient).NewConn(g, ctx, spec, header) res
+//@   implements protocolClient.NewConn
 //@   tags C10, C09, C08, C01, C06
 //@   requires g != nil && ctx != nil && header != nil && g.protocolClientParams.CompressionPools != nil && g.protocolClientParams.BufferPool != nil
 //@   assert@call(wrapClientConnWithCodedErrors#1): typeis(arg0, "*grpcClientConn") && (let t := cast(arg0, "*grpcClientConn") in t.unmarshaler.envelopeReader.readMaxBytes == g.protocolClientParams.ReadMaxBytes && t.unmarshaler.envelopeReader.codec == g.protocolClientParams.Codec && t.unmarshaler.envelopeReader.reader == t.duplexCall && t.unmarshaler.web == g.web && t.marshaler.envelopeWriter.writer == t.duplexCall && t.marshaler.envelopeWriter.codec == g.protocolClientParams.Codec && t.marshaler.envelopeWriter.compressMinBytes == g.protocolClientParams.CompressMinBytes && t.marshaler.envelopeWriter.compressionPool == callres("readOnlyCompressionPools.Get", 1) && t.compressionPools == g.protocolClientParams.CompressionPools && t.protobuf == g.protocolClientParams.Protobuf && t.bufferPool == g.protocolClientParams.BufferPool && t.bufferPool != nil && t.marshaler.envelopeWriter.bufferPool == t.bufferPool && t.unmarshaler.envelopeReader.bufferPool == t.bufferPool)   // label: conn-carries-the-client's-codec-limit-threshold-and-compression   // tags: C09, C08, C01, C06
@@ -1578,7 +1586,7 @@ package connect
 //@   assert@call((*duplexHTTPCall).SetOnRequestSend#1): arg0 == callres("newDuplexHTTPCall", 1)   // label: the-send-hook-is-this-call's
 //@   ensures called("(*duplexHTTPCall).SetOnRequestSend", 1)   // label: the-timeout-is-computed-again-when-the-request-is-sent   // tags: C10
 //@ func (*grpcClient).NewConn$1(header)
-//@   anchor "duplexCall.SetOnRequestSend(func(header http.Header) {"
+//@   anchor "SetOnRequestSend(func("
 //@   tags C10
 //@   requires header != nil
 //@   requires deref(ctx) != nil
@@ -1628,6 +1636,14 @@ package connect
 //@   doc: "the two closures installed by grpcClient.NewConn (HTTP trailers after draining the body / the gRPC-Web trailer frame), both under contract (NewConn$2, NewConn$3)"
 
 //@ func (*grpcClientConn).Receive(cc, msg) err
+//@   tags C04, C06, C03, C11, C15, C05
+//@   requires cc != nil && cc.duplexCall != nil && cc.duplexCall.requestBodyReader != nil && cc.responseTrailer != nil && cc.responseHeader != nil && cc.bufferPool != nil && cc.protobuf != nil && cc.readTrailers != nil
+//@   requires cc.unmarshaler.envelopeReader.reader != nil && !pooled(cc.unmarshaler.envelopeReader.reader) && termerr(cc.unmarshaler.envelopeReader.reader) != errSpecialEnvelope && cc.unmarshaler.envelopeReader.bufferPool != nil && cc.unmarshaler.envelopeReader.codec != nil
+//@   assigns everything
+//@   ensures old(cc.receiveErr) != nil ==> err == old(cc.receiveErr) && cc.receiveErr == old(cc.receiveErr) && !called("(*grpcClientConn).receive", 1)   // label: after-the-end-(or-a-failure)-the-same-error-is-returned-and-the-trailers-are-not-merged-again   // tags: C11, C05, C04
+//@   ensures old(cc.receiveErr) == nil ==> err == callres("(*grpcClientConn).receive", 1) && cc.receiveErr == err   // label: the-first-error-is-latched   // tags: C11, C04
+//@   assert@call((*grpcClientConn).receive#1): arg0 == cc && arg1 == msg
+//@ func (*grpcClientConn).receive(cc, msg) err
 //@   tags C04, C06, C03, C11, C15
 //@   requires cc != nil && cc.duplexCall != nil && cc.duplexCall.requestBodyReader != nil && cc.responseTrailer != nil && cc.responseHeader != nil && cc.bufferPool != nil && cc.protobuf != nil && cc.readTrailers != nil
 //@   requires cc.unmarshaler.envelopeReader.reader != nil && !pooled(cc.unmarshaler.envelopeReader.reader) && termerr(cc.unmarshaler.envelopeReader.reader) != errSpecialEnvelope && cc.unmarshaler.envelopeReader.bufferPool != nil && cc.unmarshaler.envelopeReader.codec != nil
@@ -1687,15 +1703,15 @@ package connect
 //@ trusted func AnyResponse.Any(r) res
 //@   pure
 //@ func NewUnaryHandler$2(ctx, conn) err
-//@   anchor "implementation := func(ctx context.Context, conn StreamingHandlerConn) error {"
+//@   anchor "implementation := func("
 //@   tags C12, C11, C07
 //@   assert@call(NewUnaryHandler$2.untyped#1): ended(conn)   // label: user-code-runs-only-when-the-request-is-exactly-one-message   // tags: C07
 //@   requires conn != nil && deref(untyped) != nil
 //@   assigns everything
 //@   assert@call(NewUnaryHandler$2.untyped#1): typeis(arg1, "*Request") && (let r := cast(arg1, "*Request") in r.spec.Procedure == callres("StreamingHandlerConn.Spec", 1).Procedure && r.spec.StreamType == callres("StreamingHandlerConn.Spec", 1).StreamType && r.spec.IsClient == callres("StreamingHandlerConn.Spec", 1).IsClient && r.header == callres("StreamingHandlerConn.RequestHeader", 1))   // label: user-code-sees-the-spec-and-request-headers-of-the-connection
-//@   assert@call(mergeHeaders#1): arg0 == callres("StreamingHandlerConn.ResponseHeader", 1) && arg1 == callres("AnyResponse.Header", 1)   // label: response-headers-merged-into-the-connection's   // tags: C11
-//@   assert@call(mergeHeaders#2): arg0 == callres("StreamingHandlerConn.ResponseTrailer", 1) && arg1 == callres("AnyResponse.Trailer", 1)   // label: response-trailers-merged-into-the-connection's   // tags: C11
-//@   assert@call(StreamingHandlerConn.Send#1): arg1 == callres("AnyResponse.Any", 1) && called("mergeHeaders", 2)   // label: message-sent-after-headers-and-trailers-are-merged   // tags: C11
+//@   assert@call(mergeMetadataHeaders#1): arg0 == callres("StreamingHandlerConn.ResponseHeader", 1) && arg1 == callres("AnyResponse.Header", 1)   // label: response-headers-merged-into-the-connection's-without-the-framing-headers   // tags: C11, C05
+//@   assert@call(mergeHeaders#1): arg0 == callres("StreamingHandlerConn.ResponseTrailer", 1) && arg1 == callres("AnyResponse.Trailer", 1)   // label: response-trailers-merged-into-the-connection's   // tags: C11
+//@   assert@call(StreamingHandlerConn.Send#1): arg1 == callres("AnyResponse.Any", 1) && called("mergeMetadataHeaders", 1) && called("mergeHeaders", 1)   // label: message-sent-after-headers-and-trailers-are-merged   // tags: C11
 
 //@ trusted func NewClientStreamHandler$1.implementation(ctx, stream) (res, err)
 //@   assigns everything
@@ -1706,9 +1722,9 @@ package connect
 //@   requires conn != nil && deref(implementation) != nil
 //@   assigns everything
 //@   assert@call(NewClientStreamHandler$1.implementation#1): arg1 != nil && arg1.conn == conn   // label: user-code-gets-the-connection
-//@   assert@call(mergeHeaders#1): arg0 == callres("StreamingHandlerConn.ResponseHeader", 1) && arg1 == callres("NewClientStreamHandler$1.implementation", 1, 0).header   // label: response-headers-merged-into-the-connection's
-//@   assert@call(mergeHeaders#2): arg0 == callres("StreamingHandlerConn.ResponseTrailer", 1) && arg1 == callres("NewClientStreamHandler$1.implementation", 1, 0).trailer   // label: response-trailers-merged-into-the-connection's
-//@   assert@call(StreamingHandlerConn.Send#1): called("mergeHeaders", 2)   // label: message-sent-after-headers-and-trailers-are-merged
+//@   assert@call(mergeMetadataHeaders#1): arg0 == callres("StreamingHandlerConn.ResponseHeader", 1) && arg1 == callres("NewClientStreamHandler$1.implementation", 1, 0).header   // label: response-headers-merged-into-the-connection's-without-the-framing-headers
+//@   assert@call(mergeHeaders#1): arg0 == callres("StreamingHandlerConn.ResponseTrailer", 1) && arg1 == callres("NewClientStreamHandler$1.implementation", 1, 0).trailer   // label: response-trailers-merged-into-the-connection's
+//@   assert@call(StreamingHandlerConn.Send#1): called("mergeMetadataHeaders", 1) && called("mergeHeaders", 1)   // label: message-sent-after-headers-and-trailers-are-merged
 
 //@ trusted func NewBidiStreamHandler$1.implementation(ctx, stream) err
 //@   assigns everything
@@ -1846,7 +1862,7 @@ package connect
 
 // the unary call proper (innermost UnaryFunc, wrapped by the interceptors)
 //@ func NewClient$1(ctx, request) (res, err)
-//@   anchor "unaryFunc := UnaryFunc(func(ctx"
+//@   anchor "unaryFunc := UnaryFunc(func("
 //@   tags C12, C02, C04
 //@   requires request != nil && deref(protocolClient) != nil
 //@   assigns everything
@@ -1859,7 +1875,7 @@ package connect
 //@ trusted func NewClient$2.unaryFunc(ctx, request) (res, err)
 //@   assigns everything
 //@ func NewClient$2(ctx, request) (res, err)
-//@   anchor "client.callUnary = func(ctx"
+//@   anchor "client.callUnary = func("
 //@   tags C12, C16
 //@   requires request != nil && deref(protocolClient) != nil && deref(unaryFunc) != nil
 //@   assigns everything
@@ -1880,7 +1896,7 @@ package connect
 //@   ensures called("StreamingClientConn.Send", 1) && callres("StreamingClientConn.Send", 1) != nil && !Is(callres("StreamingClientConn.Send", 1), io.EOF) ==> err == callres("StreamingClientConn.Send", 1) && res == nil   // label: a-client-side-send-failure-is-returned
 
 //@ func (*Client).newConn$1(ctx, spec) res
-//@   anchor "newConn := func(ctx context.Context, spec Spec)"
+//@   anchor "newConn := func("
 //@   tags C12, C11, C10, C15
 //@   requires deref(c) != nil && deref(c).protocolClient != nil
 //@   assigns everything
@@ -1918,6 +1934,7 @@ package connect
 
 //@ spec lmem(l strlist, x seq) bool = exists i int :: {l[i]} 0 <= i && i < len(l) && l[i] == x
 //@ func (*protocolConnect).NewHandler(p, params) res
+//@   implements protocol.NewHandler
 //@   tags C12
 //@   defines ctmap(res) == cast(res, "*connectHandler").accept
 //@   requires params != nil && params.Codecs != nil
@@ -1933,6 +1950,7 @@ package connect
 //@ macro grpcBare(web bool) seq = if web then "application/grpc-web" else "application/grpc"
 //@ macro grpcPrefix(web bool) seq = if web then "application/grpc-web+" else "application/grpc+"
 //@ func (*protocolGRPC).NewHandler(g, params) res
+//@   implements protocol.NewHandler
 //@   tags C12
 //@   defines ctmap(res) == cast(res, "*grpcHandler").accept
 //@   requires g != nil && params != nil && params.Codecs != nil
@@ -2373,6 +2391,7 @@ package connect
 //@   ensures g.protocolClientParams.CompressionName != "" && g.protocolClientParams.CompressionName != "identity" ==> hdom(header, "Grpc-Encoding") && hraw(header, "Grpc-Encoding") == [g.protocolClientParams.CompressionName]   // label: request-compression-announced
 //@   ensures (g.protocolClientParams.CompressionName == "" || g.protocolClientParams.CompressionName == "identity") ==> !hdom(header, "Grpc-Encoding")   // label: no-compression-no-header
 //@   ensures !g.web ==> hdom(header, "Te") && hraw(header, "Te") == ["trailers"]   // label: grpc-asks-for-trailers
+//@   ensures !hdom(header, "Content-Encoding")   // label: an-envelope-stream-is-never-labelled-as-compressed-as-a-whole-whatever-the-header-map-held   // tags: C05, C08
 //@   assert@call(grpcContentTypeFromCodecName#1): arg0 == g.web && arg1 == callres("Codec.Name", 1)
 
 //@ func grpcContentTypeFromCodecName(web, name) res
@@ -2481,11 +2500,13 @@ package connect
 //@   assigns nothing
 //@   ensures res == hc.request.Header
 //@ func (*connectUnaryHandlerConn).ResponseHeader(hc) res
+//@   implements StreamingHandlerConn.ResponseHeader
 //@   tags C11
 //@   requires hc != nil && hc.responseWriter != nil
 //@   assigns nothing
 //@   ensures res == hdrOf(hc.responseWriter)   // label: headers-go-straight-to-the-response
 //@ func (*connectUnaryHandlerConn).ResponseTrailer(hc) res
+//@   implements StreamingHandlerConn.ResponseTrailer
 //@   tags C11
 //@   requires hc != nil
 //@   assigns nothing
@@ -2496,11 +2517,13 @@ package connect
 //@   assigns nothing
 //@   ensures res == hc.request.Header
 //@ func (*connectStreamingHandlerConn).ResponseHeader(hc) res
+//@   implements StreamingHandlerConn.ResponseHeader
 //@   tags C11
 //@   requires hc != nil && hc.responseWriter != nil
 //@   assigns nothing
 //@   ensures res == hdrOf(hc.responseWriter)
 //@ func (*connectStreamingHandlerConn).ResponseTrailer(hc) res
+//@   implements StreamingHandlerConn.ResponseTrailer
 //@   tags C11
 //@   requires hc != nil
 //@   assigns nothing
@@ -2511,11 +2534,13 @@ package connect
 //@   assigns nothing
 //@   ensures res == hc.request.Header
 //@ func (*grpcHandlerConn).ResponseHeader(hc) res
+//@   implements StreamingHandlerConn.ResponseHeader
 //@   tags C11
 //@   requires hc != nil
 //@   assigns nothing
 //@   ensures res == hc.responseHeader   // label: buffered-until-the-first-send
 //@ func (*grpcHandlerConn).ResponseTrailer(hc) res
+//@   implements StreamingHandlerConn.ResponseTrailer
 //@   tags C11
 //@   requires hc != nil
 //@   assigns nothing
@@ -2841,12 +2866,14 @@ package connect
 //@   assert@call(newReadOnlyCompressionPools#1): arg0 == callres("newClientConfig", 1, 0).CompressionPools && arg1 == callres("newClientConfig", 1, 0).CompressionNames
 
 //@ func (*protocolConnect).NewClient(p, params) (res, err)
+//@   implements protocol.NewClient
 //@   tags C05, C12
 //@   requires params != nil
 //@   assigns nothing
 //@   ensures err == nil ==> res != nil && typeis(res, "*connectClient") && fresh(res)
 //@   ensures (err == nil) == (callres("validateRequestURL", 1) == nil)
 //@ func (*protocolGRPC).NewClient(g, params) (res, err)
+//@   implements protocol.NewClient
 //@   tags C05, C12
 //@   requires g != nil && params != nil
 //@   assigns nothing
@@ -3062,6 +3089,11 @@ package connect
 
 // recover.go: the outer functions only build the closures contracted above
 //@ typeinv *recoverHandlerInterceptor r by WithRecover: r.handle != nil
+// The conns' own header maps exist from construction on (what the trusted
+// interface contracts of the accessors promise their callers).
+//@ typeinv *grpcHandlerConn hc by (*grpcHandler).NewConn: hc.responseHeader != nil && hc.responseTrailer != nil
+//@ typeinv *connectStreamingHandlerConn hc by (*connectHandler).NewConn: hc.responseTrailer != nil
+//@ typeinv *connectUnaryHandlerConn hc by (*connectHandler).NewConn: hc.responseTrailer != nil
 //@ func (*recoverHandlerInterceptor).WrapUnary(i, next) res
 //@   tags C19
 //@   requires i != nil && next != nil
